@@ -294,3 +294,23 @@ PROPS["C01"] = dict(
     assumptions=["WithAdsResync together with FirstSyncDepth on a publisher that already has a latest-synced value is documented ambiguously and is not generated",
                  "link trees with shared children are not generated (they are legitimately visited once per path)"],
 )
+
+PROPS["C02"] = dict(
+    race=False,
+    shards={"quick": 8, "thorough": 16},
+    level="fault_enumeration",
+    design_ref="DESIGN.md §1 C02",
+    technique="runtime monitor: response-body corruption injected at a publisher front; full re-hash audit of the destination store, hook log and error oracle after every sync",
+    rule=("chains of 1..5 advertisements stored under 8 CID hash prefixes (sha2-256 full and truncated to 20/16 bytes, sha2-512, sha1, sha3-256, "
+          "blake3, identity); the response to the block request at position p (every position) is replaced by one of 10 corruptions (bit flip, "
+          "byte substitution, truncation at a random length, empty body, appended bytes, another valid block of the chain, 4 MiB body, block+other "
+          "block, doubled body); explicit and announce-triggered syncs, segmented or not, publisher reachable through one address or two "
+          "(only the first corrupts). Three phases per case against one store: corrupted sync, honest retry, resync with another position "
+          "corrupted. After EVERY sync every key/value of the destination store is re-hashed with the CID's own function and length, hooks must "
+          "name only blocks stored intact, the corrupted sync must fail iff the corrupted response was actually consumed, and the store after "
+          "the honest retry must equal the publisher's. distinct_nontrivial = distinct (hash prefix, corruption, position, mode) tuples."),
+    floors={"quick": {"corrupted_response_consumed": 1500, "audited_store_entries": 5000, "two_address_cases": 200, "hash_identity": 100, "hash_sha2-256/16": 100}},
+    level_text=("Fault enumeration over (hash prefix x corruption kind x request position x mode), sampled with a seeded PRNG: the real "
+                "subscriber syncs from a real publisher whose responses are corrupted in flight; the destination store is audited entry by entry."),
+    level_note="Trusted: go-multihash for the audit re-hash (same library the code under test uses; an independent implementation is not available offline).",
+)
